@@ -294,9 +294,12 @@ func do(r reqSpec) (int, http.Header, string) {
 	return resp.StatusCode, resp.Header, string(buf[:n])
 }
 
-func login(user, pw string) (int, string) {
+func login(user, pw string) (int, string) { return loginWith(user, pw, "") }
+
+// loginWith: a login request that carries a session cookie (a second tab, a script that always logs in first).
+func loginWith(user, pw, cookie string) (int, string) {
 	b, _ := json.Marshal(map[string]string{"username": user, "password": pw})
-	st, h, _ := do(reqSpec{Method: "POST", Path: "/api/auth/login", Body: string(b)})
+	st, h, _ := do(reqSpec{Method: "POST", Path: "/api/auth/login", Body: string(b), Cookie: cookie})
 	sid := ""
 	for _, c := range (&http.Response{Header: h}).Cookies() {
 		if c.Name == "reservoir.sid" {
@@ -512,7 +515,7 @@ type msess struct {
 }
 
 var subSessions = ev.Register("session-histories",
-	"histories of login (right / wrong / empty password; known, unknown, malformed-hash users) / logout / age (the session's expiry is moved to now + d for d from -1 h to +1 h, including the +-11 min zone around the sliding-extension threshold) / request(route) with the cookie of any session created so far; model: a session is live from a successful login until logout or its expiry (sliding extension only while live); oracle: login succeeds exactly with the password whose stored hash verifies (never with a malformed stored hash); a request carrying a non-live cookie is refused with 401, has no effect, and does not revive the session; one carrying a live cookie is not refused; non-trivial = an expired or logged-out cookie was used against a state-changing route; distinct by history",
+	"histories of login (right / wrong / empty password; known, unknown, malformed-hash users) / login with a wrong password carrying the cookie of an existing session / logout / age (the session's expiry is moved to now + d for d from -1 h to +1 h, including the +-11 min zone around the sliding-extension threshold) / request(route) with the cookie of any session created so far; model: a session is live from a successful login until logout or its expiry (sliding extension only while live); oracle: login succeeds exactly with the password whose stored hash verifies (never with a malformed stored hash; a wrong password never yields a new session, whatever cookie came with it); a request carrying a non-live cookie is refused with 401, has no effect, and does not revive the session; one carrying a live cookie is not refused; non-trivial = an expired or logged-out cookie was used against a state-changing route; distinct by history",
 	func(h SHist, o *ev.Obs) *ev.Failure {
 		var ss []*msess
 		defer func() {
@@ -539,7 +542,7 @@ var subSessions = ev.Register("session-histories",
 					obj, _ := auth.GetSession(sid)
 					ss = append(ss, &msess{sid: sid, obj: obj, expiresAt: time.Now().Add(time.Hour)})
 				}
-			case "logout", "age", "request":
+			case "logout", "age", "request", "login-with-cookie":
 				if len(ss) == 0 {
 					continue
 				}
@@ -547,6 +550,22 @@ var subSessions = ev.Register("session-histories",
 				now := time.Now()
 				live := !s.loggedOut && now.Before(s.expiresAt)
 				switch st.Kind {
+				case "login-with-cookie":
+					// a login request that carries the cookie of session s and a password that is not the user's: whatever
+					// it answers (a live cookie gets "already authenticated"), it must not hand out a session
+					code, sid2 := loginWith(st.User, "wrong-"+st.User, s.sid)
+					if !live && code == 200 {
+						return ev.Failf("login.invalid-accepted:with-dead-cookie", "step %d: login as %q with a wrong password and a non-live cookie answered 200", i, st.User)
+					}
+					if sid2 != "" && sid2 != s.sid {
+						if s2, ok := auth.GetSession(sid2); ok {
+							s2.Destroy()
+							return ev.Failf("login.invalid-accepted:with-live-cookie", "step %d: login as %q with a wrong password, carrying the cookie of session %d (live: %v), answered %d and handed out a new live session", i, st.User, st.Sess%len(ss), live, code)
+						}
+					}
+					if live && s.obj != nil && s.obj.ExpiresAt.After(s.expiresAt) {
+						s.expiresAt = s.obj.ExpiresAt // the request carried a live cookie inside the extension zone
+					}
 				case "logout":
 					code, _, _ := do(reqSpec{Method: "POST", Path: "/api/auth/logout", Cookie: s.sid})
 					if live && code != 204 {
@@ -629,7 +648,10 @@ func TestSessionHistories(t *testing.T) {
 					Pw: rapid.SampledFrom([]string{"right", "right", "wrong", "empty"}).Draw(t, "pw")})
 			case 2:
 				h.Steps = append(h.Steps, SStep{Kind: "logout", Sess: rapid.IntRange(0, 3).Draw(t, "sess")})
-			case 3, 4, 5:
+			case 3:
+				h.Steps = append(h.Steps, SStep{Kind: "login-with-cookie", Sess: rapid.IntRange(0, 3).Draw(t, "sess"), User: rapid.SampledFrom([]string{"alice", "bob", "nobody"}).Draw(t, "user")},
+					SStep{Kind: "logout", Sess: rapid.IntRange(0, 3).Draw(t, "sess")})
+			case 4, 5:
 				h.Steps = append(h.Steps, SStep{Kind: "age", Sess: rapid.IntRange(0, 3).Draw(t, "sess"),
 					AgeMs: rapid.SampledFrom([]int64{-3600000, -1800000, -660000, -540000, -1000, -1, 1500, 540000, 660000, 3600000}).Draw(t, "age")})
 			default:
